@@ -84,6 +84,13 @@ func (c C11Config) definition(h *server.VHist, id string) map[string]interface{}
 	case "js-no-code":
 		// a transform block that names the type but carries no code: accepted, the job then has no transform
 		def["transform"] = map[string]interface{}{"Type": "JavascriptTransform"}
+	case "js-parallelism-0", "js-parallelism-negative":
+		// the documented option "Parallelism" with a value nobody should give but the scheduler accepts
+		par := 0
+		if c.Transform == "js-parallelism-negative" {
+			par = -2
+		}
+		def["transform"] = map[string]interface{}{"Type": "JavascriptTransform", "Parallelism": par, "Code": base64.StdEncoding.EncodeToString([]byte(`function transform_entities(entities) { return entities; }`))}
 	case "js-throws":
 		def["transform"] = map[string]interface{}{"Type": "JavascriptTransform", "Code": base64.StdEncoding.EncodeToString([]byte(`function transform_entities(entities) { throw "boom"; }`))}
 	}
@@ -93,7 +100,7 @@ func (c C11Config) definition(h *server.VHist, id string) map[string]interface{}
 func c11Configs() []C11Config {
 	var out []C11Config
 	for _, s := range []string{"dataset", "dataset-latest", "union", "multi", "sample"} {
-		for _, t := range []string{"none", "js-identity", "js-throws", "js-drop-all", "js-no-code"} {
+		for _, t := range []string{"none", "js-identity", "js-throws", "js-drop-all", "js-no-code", "js-parallelism-0", "js-parallelism-negative"} {
 			for _, k := range []string{"dataset", "devnull", "console", "failing", "missing-dataset"} {
 				for _, tr := range []string{"cron", "onchange"} {
 					for _, jt := range []string{"incremental", "fullsync"} {
@@ -265,7 +272,7 @@ func init() {
 	})
 
 	engine.RegisterCheck("C11", func(r *engine.Run) {
-		r.Rule = "ENUM: the full cross product of 5 sources x 5 transforms x 5 sinks x 2 trigger types x 2 job types x 5 error-handler settings (2500 definitions) is offered to the real Scheduler.AddJob; every accepted definition is triggered the way its trigger does (cron: jobrunner-wrapped Run; onchange: Run as the event callback calls it) in a worker process; oracle: no panic leaves Run, the process survives, the run slot and ticket are released, a run result is stored; differential: the same definition with a recording sink, undisturbed and with a second request for the same job arriving during each of the sink's calls (up to the 6th), must give the same outcome, sink calls and deliveries (the refused request is a no-op). SCHED: concurrent run requests on overlapping ids (see parts). distinct = distinct (accept/outcome) digests"
+		r.Rule = "ENUM: the full cross product of 5 sources x 7 transforms x 5 sinks x 2 trigger types x 2 job types x 5 error-handler settings (3500 definitions) is offered to the real Scheduler.AddJob; every accepted definition is triggered the way its trigger does (cron: jobrunner-wrapped Run; onchange: Run as the event callback calls it) in a worker process; oracle: no panic leaves Run, the process survives, the run slot and ticket are released, a run result is stored; differential: the same definition with a recording sink, undisturbed and with a second request for the same job arriving during each of the sink's calls (up to the 6th), must give the same outcome, sink calls and deliveries (the refused request is a no-op). SCHED: concurrent run requests on overlapping ids (see parts). distinct = distinct (accept/outcome) digests"
 		r.Assumptions = []string{"a panic leaving job.Run terminates the hub (jobrunner re-panics in the cron goroutine; on-change jobs run in a bare goroutine)", "HTTP-typed sources/sinks/transforms are exercised against a second hub behind a loopback listener (part http-peer), not in the cross product"}
 		cfgs := c11Configs()
 		start := time.Now()
